@@ -115,7 +115,7 @@ def run_call(fun, entry, method, order, gen, x):
     import numdifftools as nd
     import numdifftools.finite_difference as fdm
     from numdifftools.step_generators import MinStepGenerator, MaxStepGenerator
-    fdm.FD_RULES.clear()
+    fw.fresh_library_state()
     kw = dict(method=method, full_output=True)
     if entry == 'Hessdiag':
         kw['order'] = order
